@@ -65,3 +65,17 @@ Theorem C04_crash_inside_recovery_on_the_real_index :
     st_rel sp2 sf2 /\ Inv P sf2 /\ s_mem sf2 <> None /\ answers P sp2 (abs df).
 Proof. exact chain_crash_open_recover. Qed.
 Print Assumptions C04_crash_inside_recovery_on_the_real_index.
+
+(* ---- the counters recovery rebuilds (they decide what a later compaction may drop), AS TRANSLATED
+   FROM THE CURRENT SOURCES by tools/gotrans (gen/Funcs.v), are the model's (DB.replay_rec) ---- *)
+From Coq Require Import ZArith NArith.
+From Pogreb Require Import GoSem FuncsLogCheck.
+From Pogreb.gen Require Funcs.
+Import Funcs.
+Theorem C04_go_recover_counters : forall puts dels dbytes rlen : N,
+  (puts < 2 ^ 32)%N -> (dels < 2 ^ 32)%N -> (dbytes < 2 ^ 32)%N -> (rlen < 2 ^ 62)%N ->
+  go_recover_put (Z.of_N puts) = Z.of_N (u32 (puts + 1)) /\
+  go_recover_del (Z.of_N dels) (Z.of_N dbytes) (Z.of_N rlen)
+  = (Z.of_N (u32 (dels + 1)), Z.of_N (u32 (dbytes + u32 rlen))).
+Proof. exact recover_counters_ok. Qed.
+Print Assumptions C04_go_recover_counters.
